@@ -55,8 +55,8 @@ theorem Steps.trans {C : List Op} {a b c : St V} (h₁ : Steps sem C a b) (h₂ 
 theorem Steps.one {C : List Op} {a b : St V} (h : step sem C a = .next b) : Steps sem C a b :=
   .cons h (.refl b)
 
-theorem step_at {C : List Op} {pc : Nat} {op : Op} (h : C[pc]? = some op) (regs : Reg → V) (env : Env V) :
-    step sem C ⟨pc, regs, env⟩ = exec1 sem op ⟨pc, regs, env⟩ := by
+theorem step_at {C : List Op} {pc : Nat} {op : Op} (h : C[pc]? = some op) (regs : Reg → V) (env : Env V) (H : List Nat) :
+    step sem C ⟨pc, regs, env, H⟩ = exec1 sem op ⟨pc, regs, env, H⟩ := by
   simp [step, h]
 
 @[simp] theorem setReg_same (regs : Reg → V) (r : Reg) (v : V) : setReg regs r v r = v := by simp [setReg]
@@ -64,24 +64,24 @@ theorem setReg_other (regs : Reg → V) {r r' : Reg} (v : V) (h : r' ≠ r) : se
   simp [setReg, h]
 
 /-- the VM reaches the end of the code with the value in `dst`, the registers below `n` intact -/
-def Done (C : List Op) (base len : Nat) (dst n : Nat) (regs : Reg → V) (env : Env V) (v : V) (env' : Env V) : Prop :=
-  ∃ regs', Steps sem C ⟨base, regs, env⟩ ⟨base + len, regs', env'⟩ ∧ regs' dst = v ∧
+def Done (C : List Op) (base len : Nat) (dst n : Nat) (regs : Reg → V) (env : Env V) (H : List Nat) (v : V) (env' : Env V) : Prop :=
+  ∃ regs', Steps sem C ⟨base, regs, env, H⟩ ⟨base + len, regs', env', H⟩ ∧ regs' dst = v ∧
     ∀ r, r < n → r ≠ dst → regs' r = regs r
 
 /-- the VM reaches an instruction that throws `er`, with environment `env'` -/
-def Throws (C : List Op) (base : Nat) (regs : Reg → V) (env : Env V) (er : Err) (env' : Env V) : Prop :=
-  ∃ pc regs', Steps sem C ⟨base, regs, env⟩ ⟨pc, regs', env'⟩ ∧
-    step sem C ⟨pc, regs', env'⟩ = .throw er ⟨pc, regs', env'⟩
+def Throws (C : List Op) (base : Nat) (regs : Reg → V) (env : Env V) (H : List Nat) (er : Err) (env' : Env V) : Prop :=
+  ∃ pc regs', Steps sem C ⟨base, regs, env, H⟩ ⟨pc, regs', env', H⟩ ∧
+    step sem C ⟨pc, regs', env', H⟩ = .throw er ⟨pc, regs', env', H⟩
 
 /-- the code at `base` simulates the evaluation of `e` into `dst` -/
 def ExprOK (C : List Op) (base len : Nat) (e : Expr) (dst n : Nat) : Prop :=
-  ∀ (regs : Reg → V) (env : Env V),
-    (∀ v env', evalE sem e env = .ok v env' → Done sem C base len dst n regs env v env') ∧
-    (∀ er env', evalE sem e env = .thrown er env' → Throws sem C base regs env er env')
+  ∀ (regs : Reg → V) (env : Env V) (H : List Nat),
+    (∀ v env', evalE sem e env = .ok v env' → Done sem C base len dst n regs env H v env') ∧
+    (∀ er env', evalE sem e env = .thrown er env' → Throws sem C base regs env H er env')
 
-theorem Throws.after {C : List Op} {base pc : Nat} {regs regs' : Reg → V} {env env' env'' : Env V} {er : Err}
-    (h₁ : Steps sem C ⟨base, regs, env⟩ ⟨pc, regs', env'⟩) (h₂ : Throws sem C pc regs' env' er env'') :
-    Throws sem C base regs env er env'' := by
+theorem Throws.after {C : List Op} {base pc : Nat} {regs regs' : Reg → V} {env env' env'' : Env V} {H : List Nat} {er : Err}
+    (h₁ : Steps sem C ⟨base, regs, env, H⟩ ⟨pc, regs', env', H⟩) (h₂ : Throws sem C pc regs' env' H er env'') :
+    Throws sem C base regs env H er env'' := by
   obtain ⟨pc', r', hs, ht⟩ := h₂
   exact ⟨pc', r', h₁.trans sem hs, ht⟩
 
@@ -93,12 +93,12 @@ theorem exec_lit (dst : Reg) (l : Lit) (s : St V) :
   | _ => simp [litOp, exec1]
 
 theorem Steps.cons_at {C : List Op} {pc : Nat} {op : Op} {regs : Reg → V} {env : Env V} {s' s'' : St V}
-    (h : C[pc]? = some op) (he : exec1 sem op ⟨pc, regs, env⟩ = .next s') (hs : Steps sem C s' s'') :
-    Steps sem C ⟨pc, regs, env⟩ s'' :=
+    (h : C[pc]? = some op) (he : exec1 sem op ⟨pc, regs, env, H⟩ = .next s') (hs : Steps sem C s' s'') :
+    Steps sem C ⟨pc, regs, env, H⟩ s'' :=
   .cons (by rw [step_at sem h, he]) hs
 
-theorem exec_skip (op : LogOp) (c : Reg) (t pc : Nat) (regs : Reg → V) (env : Env V) :
-    exec1 sem (retarget (skipOp op c) t) ⟨pc, regs, env⟩ = .next ⟨if skips sem op (regs c) then t else pc + 1, regs, env⟩ := by
+theorem exec_skip (op : LogOp) (c : Reg) (t pc : Nat) (regs : Reg → V) (env : Env V) (H : List Nat) :
+    exec1 sem (retarget (skipOp op c) t) ⟨pc, regs, env, H⟩ = .next ⟨if skips sem op (regs c) then t else pc + 1, regs, env, H⟩ := by
   cases op with
   | and => cases h : sem.truthy (regs c) <;> simp [skipOp, retarget, exec1, skips, h]
   | or => cases h : sem.truthy (regs c) <;> simp [skipOp, retarget, exec1, skips, h]
@@ -138,26 +138,26 @@ theorem asgLog_ok (lop : LogOp) (x : String) (e : Expr) (dst n base : Nat) (be :
     (hget : C[base]? = some (.getVar dst x))
     (hj : C[base + 1]? = some (retarget (skipOp lop dst) (base + 2 + be.length)))
     (hset : C[base + 2 + be.length]? = some (.setVar x dst))
-    (regs : Reg → V) (env : Env V) :
+    (regs : Reg → V) (env : Env V) (H : List Nat) :
     (∀ v env', (match getVar sem env x with
         | .ok a env =>
           if skips sem lop a then setVar sem env x a else
           match evalE sem e env with
           | .ok v env => setVar sem env x v
           | .thrown er env => .thrown er env
-        | .thrown er env => .thrown er env) = Res.ok v env' → Done sem C base (be.length + 3) dst n regs env v env') ∧
+        | .thrown er env => .thrown er env) = Res.ok v env' → Done sem C base (be.length + 3) dst n regs env H v env') ∧
     (∀ er env', (match getVar sem env x with
         | .ok a env =>
           if skips sem lop a then setVar sem env x a else
           match evalE sem e env with
           | .ok v env => setVar sem env x v
           | .thrown er env => .thrown er env
-        | .thrown er env => .thrown er env) = Res.thrown er env' → Throws sem C base regs env er env') := by
+        | .thrown er env => .thrown er env) = Res.thrown er env' → Throws sem C base regs env H er env') := by
   refine ⟨fun v env' h => ?_, fun er env' h => ?_⟩
   · split at h
     · rename_i a env0 ha
       obtain ⟨hga, rfl⟩ := getVar_ok sem ha
-      have s0 : Steps sem C ⟨base, regs, env0⟩ ⟨base + 1, setReg regs dst a, env0⟩ :=
+      have s0 : Steps sem C ⟨base, regs, env0, H⟩ ⟨base + 1, setReg regs dst a, env0, H⟩ :=
         Steps.one sem (by rw [step_at sem hget]; simp [exec1, hga])
       split at h
       · rename_i hsk
@@ -171,8 +171,8 @@ theorem asgLog_ok (lop : LogOp) (x : String) (e : Expr) (dst n base : Nat) (be :
         split at h
         · rename_i w env1 hw
           obtain ⟨hs, hwv⟩ := setVar_ok sem h
-          obtain ⟨regs1, hs1, hv1, hk1⟩ := (ihe (setReg regs dst a) env0).1 w env1 hw
-          refine ⟨regs1, s0.trans sem (Steps.cons_at sem hj (s' := ⟨base + 2, setReg regs dst a, env0⟩)
+          obtain ⟨regs1, hs1, hv1, hk1⟩ := (ihe (setReg regs dst a) env0 H).1 w env1 hw
+          refine ⟨regs1, s0.trans sem (Steps.cons_at sem hj (s' := ⟨base + 2, setReg regs dst a, env0, H⟩)
             (by rw [exec_skip, setReg_same, if_neg hsk]) (hs1.trans sem (Steps.one sem ?_))), by rw [hv1, hwv],
             fun r hr hrd => by rw [hk1 r hr hrd, setReg_other regs _ hrd]⟩
           rw [step_at sem hset]
@@ -183,7 +183,7 @@ theorem asgLog_ok (lop : LogOp) (x : String) (e : Expr) (dst n base : Nat) (be :
   · split at h
     · rename_i a env0 ha
       obtain ⟨hga, rfl⟩ := getVar_ok sem ha
-      have s0 : Steps sem C ⟨base, regs, env0⟩ ⟨base + 1, setReg regs dst a, env0⟩ :=
+      have s0 : Steps sem C ⟨base, regs, env0, H⟩ ⟨base + 1, setReg regs dst a, env0, H⟩ :=
         Steps.one sem (by rw [step_at sem hget]; simp [exec1, hga])
       split at h
       · rename_i hsk
@@ -193,19 +193,19 @@ theorem asgLog_ok (lop : LogOp) (x : String) (e : Expr) (dst n base : Nat) (be :
         rw [step_at sem hset]
         simp [exec1, hs]
       · rename_i hsk
-        have s1 : Steps sem C ⟨base, regs, env0⟩ ⟨base + 2, setReg regs dst a, env0⟩ :=
+        have s1 : Steps sem C ⟨base, regs, env0, H⟩ ⟨base + 2, setReg regs dst a, env0, H⟩ :=
           s0.trans sem (Steps.one sem (by rw [step_at sem hj, exec_skip, setReg_same, if_neg hsk]))
         split at h
         · rename_i w env1 hw
           obtain ⟨hs, rfl, rfl⟩ := setVar_thrown sem h
-          obtain ⟨regs1, hs1, hv1, hk1⟩ := (ihe (setReg regs dst a) env0).1 w _ hw
+          obtain ⟨regs1, hs1, hv1, hk1⟩ := (ihe (setReg regs dst a) env0 H).1 w _ hw
           refine ⟨base + 2 + be.length, regs1, s1.trans sem hs1, ?_⟩
           rw [step_at sem hset]
           simp [exec1, hv1, hs]
         · rename_i er1 env1 hw
           simp only [Res.thrown.injEq] at h
           obtain ⟨rfl, rfl⟩ := h
-          exact Throws.after sem s1 ((ihe _ _).2 _ _ hw)
+          exact Throws.after sem s1 ((ihe _ _ _).2 _ _ hw)
     · rename_i er1 env0 ha
       obtain ⟨hga, rfl, rfl⟩ := getVar_thrown sem ha
       simp only [Res.thrown.injEq] at h
@@ -219,7 +219,7 @@ theorem codeE_ok : ∀ (e : Expr) (dst n base : Nat) (body : List Op), codeE e d
   | .lit l, dst, n, base, body, hc, hd, C, emb => by
     simp only [codeE, Option.some.injEq] at hc
     subst hc
-    intro regs env
+    intro regs env H
     refine ⟨fun v env' h => ?_, fun er env' h => ?_⟩
     · simp only [evalE, Res.ok.injEq] at h
       obtain ⟨rfl, rfl⟩ := h
@@ -230,7 +230,7 @@ theorem codeE_ok : ∀ (e : Expr) (dst n base : Nat) (body : List Op), codeE e d
   | .var x, dst, n, base, body, hc, hd, C, emb => by
     simp only [codeE, Option.some.injEq] at hc
     subst hc
-    intro regs env
+    intro regs env H
     refine ⟨fun v env' h => ?_, fun er env' h => ?_⟩
     · simp only [evalE, getVar] at h
       split at h <;> simp at h
@@ -256,14 +256,14 @@ theorem codeE_ok : ∀ (e : Expr) (dst n base : Nat) (body : List Op), codeE e d
     simp only [Option.some.injEq] at hc
     subst hc
     have hlast : C[base + be.length]? = some (.un op dst n) := emb.right.head
-    intro regs env
+    intro regs env H
     -- the operand: `be` leaves its value in register `n`
     have hoperand : (∀ v env', (match typeofVar? op e with
             | some x => Res.ok ((env.get x).getD (sem.lit .undef)) env
-            | none => evalE sem e env) = Res.ok v env' → Done sem C base be.length n (n + 1) regs env v env') ∧
+            | none => evalE sem e env) = Res.ok v env' → Done sem C base be.length n (n + 1) regs env H v env') ∧
         (∀ er env', (match typeofVar? op e with
             | some x => (Res.ok ((env.get x).getD (sem.lit .undef)) env : Res V Err V)
-            | none => evalE sem e env) = Res.thrown er env' → Throws sem C base regs env er env') := by
+            | none => evalE sem e env) = Res.thrown er env' → Throws sem C base regs env H er env') := by
       cases hq : typeofVar? op e with
       | some x =>
         simp only [hq, Option.some.injEq] at hbe
@@ -276,7 +276,7 @@ theorem codeE_ok : ∀ (e : Expr) (dst n base : Nat) (body : List Op), codeE e d
         simp [exec1]
       | none =>
         simp only [hq] at hbe
-        exact codeE_ok e n (n + 1) base be hbe (by omega) C emb.left regs env
+        exact codeE_ok e n (n + 1) base be hbe (by omega) C emb.left regs env H
     refine ⟨fun v env' h => ?_, fun er env' h => ?_⟩
     · simp only [evalE] at h
       split at h
@@ -326,15 +326,15 @@ theorem codeE_ok : ∀ (e : Expr) (dst n base : Nat) (body : List Op), codeE e d
     have hlast : C[base + bl.length + br.length]? = some (.bin op dst n (n + 1)) := by
       have := emb.right.head
       simpa [Nat.add_assoc] using this
-    intro regs env
+    intro regs env H
     refine ⟨fun v env' h => ?_, fun er env' h => ?_⟩
     · simp only [evalE] at h
       split at h
       · rename_i a env1 ha
         split at h
         · rename_i c env2 hcv
-          obtain ⟨regs1, hs1, hv1, hk1⟩ := (ihl regs env).1 a env1 ha
-          obtain ⟨regs2, hs2, hv2, hk2⟩ := (ihr regs1 env1).1 c env2 hcv
+          obtain ⟨regs1, hs1, hv1, hk1⟩ := (ihl regs env H).1 a env1 ha
+          obtain ⟨regs2, hs2, hv2, hk2⟩ := (ihr regs1 env1 H).1 c env2 hcv
           simp only [liftE] at h
           split at h <;> simp at h
           rename_i w hw
@@ -349,10 +349,10 @@ theorem codeE_ok : ∀ (e : Expr) (dst n base : Nat) (body : List Op), codeE e d
     · simp only [evalE] at h
       split at h
       · rename_i a env1 ha
-        obtain ⟨regs1, hs1, hv1, hk1⟩ := (ihl regs env).1 a env1 ha
+        obtain ⟨regs1, hs1, hv1, hk1⟩ := (ihl regs env H).1 a env1 ha
         split at h
         · rename_i c env2 hcv
-          obtain ⟨regs2, hs2, hv2, hk2⟩ := (ihr regs1 env1).1 c env2 hcv
+          obtain ⟨regs2, hs2, hv2, hk2⟩ := (ihr regs1 env1 H).1 c env2 hcv
           simp only [liftE] at h
           split at h <;> simp at h
           rename_i w hw
@@ -364,11 +364,11 @@ theorem codeE_ok : ∀ (e : Expr) (dst n base : Nat) (body : List Op), codeE e d
         · rename_i er1 env2 hcv
           simp only [Res.thrown.injEq] at h
           obtain ⟨rfl, rfl⟩ := h
-          exact Throws.after sem hs1 ((ihr regs1 env1).2 _ _ hcv)
+          exact Throws.after sem hs1 ((ihr regs1 env1 H).2 _ _ hcv)
       · rename_i er1 env1 ha
         simp only [Res.thrown.injEq] at h
         obtain ⟨rfl, rfl⟩ := h
-        exact (ihl regs env).2 _ _ ha
+        exact (ihl regs env H).2 _ _ ha
   | .log op l r, dst, n, base, body, hc, hd, C, emb => by
     simp only [codeE] at hc
     split at hc
@@ -384,12 +384,12 @@ theorem codeE_ok : ∀ (e : Expr) (dst n base : Nat) (body : List Op), codeE e d
     have hj := emb.right.head
     have hlen : (bl ++ retarget (skipOp op dst) (base + bl.length + 1 + br.length) :: br).length = bl.length + 1 + br.length := by
       simp; omega
-    intro regs env
+    intro regs env H
     refine ⟨fun v env' h => ?_, fun er env' h => ?_⟩
     · simp only [evalE] at h
       split at h
       · rename_i a env1 ha
-        obtain ⟨regs1, hs1, hv1, hk1⟩ := (ihl regs env).1 a env1 ha
+        obtain ⟨regs1, hs1, hv1, hk1⟩ := (ihl regs env H).1 a env1 ha
         split at h
         · rename_i hsk
           simp only [Res.ok.injEq] at h
@@ -398,7 +398,7 @@ theorem codeE_ok : ∀ (e : Expr) (dst n base : Nat) (body : List Op), codeE e d
           rw [step_at sem hj, exec_skip, hv1, if_pos hsk, hlen]
           simp [Nat.add_assoc]
         · rename_i hsk
-          obtain ⟨regs2, hs2, hv2, hk2⟩ := (ihr regs1 env1).1 v env' h
+          obtain ⟨regs2, hs2, hv2, hk2⟩ := (ihr regs1 env1 H).1 v env' h
           refine ⟨regs2, hs1.trans sem (Steps.cons_at sem hj (by rw [exec_skip, hv1, if_neg hsk]) ?_), hv2,
             fun r hr hrd => by rw [hk2 r hr hrd, hk1 r hr hrd]⟩
           rw [hlen]
@@ -407,16 +407,16 @@ theorem codeE_ok : ∀ (e : Expr) (dst n base : Nat) (body : List Op), codeE e d
     · simp only [evalE] at h
       split at h
       · rename_i a env1 ha
-        obtain ⟨regs1, hs1, hv1, hk1⟩ := (ihl regs env).1 a env1 ha
+        obtain ⟨regs1, hs1, hv1, hk1⟩ := (ihl regs env H).1 a env1 ha
         split at h
         · simp at h
         · rename_i hsk
           exact Throws.after sem (hs1.trans sem (Steps.one sem (by rw [step_at sem hj, exec_skip, hv1, if_neg hsk])))
-            ((ihr regs1 env1).2 _ _ h)
+            ((ihr regs1 env1 H).2 _ _ h)
       · rename_i er1 env1 ha
         simp only [Res.thrown.injEq] at h
         obtain ⟨rfl, rfl⟩ := h
-        exact (ihl regs env).2 _ _ ha
+        exact (ihl regs env H).2 _ _ ha
   | .cond c t f, dst, n, base, body, hc, hd, C, emb => by
     simp only [codeE] at hc
     split at hc
@@ -441,23 +441,23 @@ theorem codeE_ok : ∀ (e : Expr) (dst n base : Nat) (body : List Op), codeE e d
         (bt ++ Op.jump (base + bc.length + 1 + bt.length + 1 + bf.length) :: bf)).length
         = bc.length + 1 + bt.length + 1 + bf.length := by
       simp; omega
-    intro regs env
+    intro regs env H
     refine ⟨fun v env' h => ?_, fun er env' h => ?_⟩
     · simp only [evalE] at h
       split at h
       · rename_i a env1 ha
-        obtain ⟨regs1, hs1, hv1, hk1⟩ := (ihc regs env).1 a env1 ha
+        obtain ⟨regs1, hs1, hv1, hk1⟩ := (ihc regs env H).1 a env1 ha
         split at h
         · rename_i htr
-          obtain ⟨regs2, hs2, hv2, hk2⟩ := (iht regs1 env1).1 v env' h
+          obtain ⟨regs2, hs2, hv2, hk2⟩ := (iht regs1 env1 H).1 v env' h
           refine ⟨regs2, hs1.trans sem (Steps.cons_at sem hjf (by simp [exec1, hv1, htr])
             (hs2.trans sem (Steps.one sem ?_))), hv2, fun r hr hrd => by rw [hk2 r hr hrd, hk1 r (by omega) (by omega)]⟩
           rw [step_at sem hj, hlen]
           simp [exec1, Nat.add_assoc]
         · rename_i htr
-          obtain ⟨regs2, hs2, hv2, hk2⟩ := (ihf regs1 env1).1 v env' h
+          obtain ⟨regs2, hs2, hv2, hk2⟩ := (ihf regs1 env1 H).1 v env' h
           refine ⟨regs2, hs1.trans sem (Steps.cons_at sem hjf
-            (s' := ⟨base + bc.length + 1 + bt.length + 1, regs1, env1⟩) (by simp [exec1, hv1, htr]) ?_), hv2,
+            (s' := ⟨base + bc.length + 1 + bt.length + 1, regs1, env1, H⟩) (by simp [exec1, hv1, htr]) ?_), hv2,
             fun r hr hrd => by rw [hk2 r hr hrd, hk1 r (by omega) (by omega)]⟩
           rw [hlen]
           simpa [Nat.add_assoc] using hs2
@@ -465,18 +465,18 @@ theorem codeE_ok : ∀ (e : Expr) (dst n base : Nat) (body : List Op), codeE e d
     · simp only [evalE] at h
       split at h
       · rename_i a env1 ha
-        obtain ⟨regs1, hs1, hv1, hk1⟩ := (ihc regs env).1 a env1 ha
+        obtain ⟨regs1, hs1, hv1, hk1⟩ := (ihc regs env H).1 a env1 ha
         split at h
         · rename_i htr
           exact Throws.after sem (hs1.trans sem (Steps.one sem (by rw [step_at sem hjf]; simp [exec1, hv1, htr])))
-            ((iht regs1 env1).2 _ _ h)
+            ((iht regs1 env1 H).2 _ _ h)
         · rename_i htr
           exact Throws.after sem (hs1.trans sem (Steps.one sem (by rw [step_at sem hjf]; simp [exec1, hv1, htr])))
-            ((ihf regs1 env1).2 _ _ h)
+            ((ihf regs1 env1 H).2 _ _ h)
       · rename_i er1 env1 ha
         simp only [Res.thrown.injEq] at h
         obtain ⟨rfl, rfl⟩ := h
-        exact (ihc regs env).2 _ _ ha
+        exact (ihc regs env H).2 _ _ ha
   | .seq a c, dst, n, base, body, hc, hd, C, emb => by
     simp only [codeE] at hc
     split at hc
@@ -491,25 +491,25 @@ theorem codeE_ok : ∀ (e : Expr) (dst n base : Nat) (body : List Op), codeE e d
     subst hc
     have iha := codeE_ok a n (n + 1) base ba hba (by omega) C emb.left
     have ihc := codeE_ok c dst n (base + ba.length) bc hbc hd C emb.right
-    intro regs env
+    intro regs env H
     refine ⟨fun v env' h => ?_, fun er env' h => ?_⟩
     · simp only [evalE] at h
       split at h
       · rename_i a' env1 ha
-        obtain ⟨regs1, hs1, hv1, hk1⟩ := (iha regs env).1 a' env1 ha
-        obtain ⟨regs2, hs2, hv2, hk2⟩ := (ihc regs1 env1).1 v env' h
+        obtain ⟨regs1, hs1, hv1, hk1⟩ := (iha regs env H).1 a' env1 ha
+        obtain ⟨regs2, hs2, hv2, hk2⟩ := (ihc regs1 env1 H).1 v env' h
         refine ⟨regs2, hs1.trans sem ?_, hv2, fun r hr hrd => by rw [hk2 r hr hrd, hk1 r (by omega) (by omega)]⟩
         simpa [Nat.add_assoc] using hs2
       · simp at h
     · simp only [evalE] at h
       split at h
       · rename_i a' env1 ha
-        obtain ⟨regs1, hs1, hv1, hk1⟩ := (iha regs env).1 a' env1 ha
-        exact Throws.after sem hs1 ((ihc regs1 env1).2 _ _ h)
+        obtain ⟨regs1, hs1, hv1, hk1⟩ := (iha regs env H).1 a' env1 ha
+        exact Throws.after sem hs1 ((ihc regs1 env1 H).2 _ _ h)
       · rename_i er1 env1 ha
         simp only [Res.thrown.injEq] at h
         obtain ⟨rfl, rfl⟩ := h
-        exact (iha regs env).2 _ _ ha
+        exact (iha regs env H).2 _ _ ha
   | .asg x .assign e, dst, n, base, body, hc, hd, C, emb => by
     simp only [codeE] at hc
     split at hc
@@ -519,12 +519,12 @@ theorem codeE_ok : ∀ (e : Expr) (dst n base : Nat) (body : List Op), codeE e d
     subst hc
     have ihe := codeE_ok e dst n base be hbe hd C emb.left
     have hlast := emb.right.head
-    intro regs env
+    intro regs env H
     refine ⟨fun v env' h => ?_, fun er env' h => ?_⟩
     · simp only [evalE] at h
       split at h
       · rename_i a env1 ha
-        obtain ⟨regs1, hs1, hv1, hk1⟩ := (ihe regs env).1 a env1 ha
+        obtain ⟨regs1, hs1, hv1, hk1⟩ := (ihe regs env H).1 a env1 ha
         simp only [setVar] at h
         split at h <;> simp at h
         rename_i env2 hset
@@ -536,7 +536,7 @@ theorem codeE_ok : ∀ (e : Expr) (dst n base : Nat) (body : List Op), codeE e d
     · simp only [evalE] at h
       split at h
       · rename_i a env1 ha
-        obtain ⟨regs1, hs1, hv1, hk1⟩ := (ihe regs env).1 a env1 ha
+        obtain ⟨regs1, hs1, hv1, hk1⟩ := (ihe regs env H).1 a env1 ha
         simp only [setVar] at h
         split at h <;> simp at h
         rename_i hset
@@ -547,7 +547,7 @@ theorem codeE_ok : ∀ (e : Expr) (dst n base : Nat) (body : List Op), codeE e d
       · rename_i er1 env1 ha
         simp only [Res.thrown.injEq] at h
         obtain ⟨rfl, rfl⟩ := h
-        exact (ihe regs env).2 _ _ ha
+        exact (ihe regs env H).2 _ _ ha
   | .asg x .andA e, dst, n, base, body, hc, hd, C, emb => by
     simp only [codeE] at hc
     split at hc
@@ -559,8 +559,8 @@ theorem codeE_ok : ∀ (e : Expr) (dst n base : Nat) (body : List Op), codeE e d
     have hset : C[base + 2 + be.length]? = some (.setVar x dst) := by
       have := emb.tail.tail.right.head
       simpa [Nat.add_assoc] using this
-    intro regs env
-    have := asgLog_ok sem .and x e dst n base be C ihe emb.head emb.tail.head hset regs env
+    intro regs env H
+    have := asgLog_ok sem .and x e dst n base be C ihe emb.head emb.tail.head hset regs env H
     have hl : (Op.getVar dst x :: Op.jumpIfFalse dst (base + 2 + be.length) :: (be ++ [Op.setVar x dst])).length = be.length + 3 := by
       simp
     rw [hl]
@@ -577,8 +577,8 @@ theorem codeE_ok : ∀ (e : Expr) (dst n base : Nat) (body : List Op), codeE e d
     have hset : C[base + 2 + be.length]? = some (.setVar x dst) := by
       have := emb.tail.tail.right.head
       simpa [Nat.add_assoc] using this
-    intro regs env
-    have := asgLog_ok sem .or x e dst n base be C ihe emb.head emb.tail.head hset regs env
+    intro regs env H
+    have := asgLog_ok sem .or x e dst n base be C ihe emb.head emb.tail.head hset regs env H
     have hl : (Op.getVar dst x :: Op.jumpIfTrue dst (base + 2 + be.length) :: (be ++ [Op.setVar x dst])).length = be.length + 3 := by
       simp
     rw [hl]
@@ -595,8 +595,8 @@ theorem codeE_ok : ∀ (e : Expr) (dst n base : Nat) (body : List Op), codeE e d
     have hset : C[base + 2 + be.length]? = some (.setVar x dst) := by
       have := emb.tail.tail.right.head
       simpa [Nat.add_assoc] using this
-    intro regs env
-    have := asgLog_ok sem .nullish x e dst n base be C ihe emb.head emb.tail.head hset regs env
+    intro regs env H
+    have := asgLog_ok sem .nullish x e dst n base be C ihe emb.head emb.tail.head hset regs env H
     have hl : (Op.getVar dst x :: Op.jumpIfNotNullish dst (base + 2 + be.length) :: (be ++ [Op.setVar x dst])).length = be.length + 3 := by
       simp
     rw [hl]
@@ -617,23 +617,23 @@ theorem codeE_ok : ∀ (e : Expr) (dst n base : Nat) (body : List Op), codeE e d
     have hset : C[base + 1 + be.length + 1]? = some (.setVar x dst) := emb.tail.right.tail.head
     have hl : (Op.getVar dst x :: (be ++ [Op.bin op dst dst n, Op.setVar x dst])).length = be.length + 3 := by simp
     rw [hl]
-    intro regs env
+    intro regs env H
     refine ⟨fun v env' h => ?_, fun er env' h => ?_⟩
     · simp only [evalE] at h
       split at h
       · rename_i a env0 ha
         obtain ⟨hga, rfl⟩ := getVar_ok sem ha
-        have s0 : Steps sem C ⟨base, regs, env0⟩ ⟨base + 1, setReg regs dst a, env0⟩ :=
+        have s0 : Steps sem C ⟨base, regs, env0, H⟩ ⟨base + 1, setReg regs dst a, env0, H⟩ :=
           Steps.one sem (by rw [step_at sem hget]; simp [exec1, hga])
         split at h
         · rename_i c env2 hcv
-          obtain ⟨regs1, hs1, hv1, hk1⟩ := (ihe (setReg regs dst a) env0).1 c env2 hcv
+          obtain ⟨regs1, hs1, hv1, hk1⟩ := (ihe (setReg regs dst a) env0 H).1 c env2 hcv
           have hd1 : regs1 dst = a := by rw [hk1 dst (by omega) (by omega)]; simp
           split at h
           · rename_i w hw
             obtain ⟨hs, hwv⟩ := setVar_ok sem h
             refine ⟨setReg regs1 dst w, (s0.trans sem hs1).trans sem (Steps.cons_at sem hbin
-              (s' := ⟨base + 1 + be.length + 1, setReg regs1 dst w, env2⟩) (by simp [exec1, hd1, hv1, hw])
+              (s' := ⟨base + 1 + be.length + 1, setReg regs1 dst w, env2, H⟩) (by simp [exec1, hd1, hv1, hw])
               (Steps.one sem ?_)), by simp [hwv], fun r hr hrd => ?_⟩
             · rw [step_at sem hset]
               simp [exec1, hs]
@@ -646,11 +646,11 @@ theorem codeE_ok : ∀ (e : Expr) (dst n base : Nat) (body : List Op), codeE e d
       split at h
       · rename_i a env0 ha
         obtain ⟨hga, rfl⟩ := getVar_ok sem ha
-        have s0 : Steps sem C ⟨base, regs, env0⟩ ⟨base + 1, setReg regs dst a, env0⟩ :=
+        have s0 : Steps sem C ⟨base, regs, env0, H⟩ ⟨base + 1, setReg regs dst a, env0, H⟩ :=
           Steps.one sem (by rw [step_at sem hget]; simp [exec1, hga])
         split at h
         · rename_i c env2 hcv
-          obtain ⟨regs1, hs1, hv1, hk1⟩ := (ihe (setReg regs dst a) env0).1 c env2 hcv
+          obtain ⟨regs1, hs1, hv1, hk1⟩ := (ihe (setReg regs dst a) env0 H).1 c env2 hcv
           have hd1 : regs1 dst = a := by rw [hk1 dst (by omega) (by omega)]; simp
           split at h
           · rename_i w hw
@@ -668,7 +668,7 @@ theorem codeE_ok : ∀ (e : Expr) (dst n base : Nat) (body : List Op), codeE e d
         · rename_i er1 env2 hcv
           simp only [Res.thrown.injEq] at h
           obtain ⟨rfl, rfl⟩ := h
-          exact Throws.after sem s0 ((ihe _ _).2 _ _ hcv)
+          exact Throws.after sem s0 ((ihe _ _ _).2 _ _ hcv)
       · rename_i er1 env0 ha
         obtain ⟨hga, rfl, rfl⟩ := getVar_thrown sem ha
         simp only [Res.thrown.injEq] at h
@@ -693,7 +693,7 @@ theorem codeE_ok : ∀ (e : Expr) (dst n base : Nat) (body : List Op), codeE e d
     have h6 := emb.tail.tail.tail.tail.tail.tail.head
     have hnd : n ≠ dst := by omega
     have hnd1 : n + 1 ≠ dst := by omega
-    intro regs env
+    intro regs env H
     refine ⟨fun v env' h => ?_, fun er env' h => ?_⟩
     · simp only [evalE] at h
       split at h
@@ -710,16 +710,16 @@ theorem codeE_ok : ∀ (e : Expr) (dst n base : Nat) (body : List Op), codeE e d
               obtain ⟨rfl, rfl⟩ := h
               refine ⟨setReg (setReg (setReg (setReg (setReg (setReg regs dst a) dst nn) n nn) (n + 1) (sem.lit (.num 1))) dst w) dst nn,
                 ?_, by simp, fun r hr hrd => ?_⟩
-              · refine Steps.cons_at sem h0 (s' := ⟨base + 1, setReg regs dst a, env0⟩) (by simp [exec1, hga]) ?_
-                refine Steps.cons_at sem h1 (s' := ⟨base + 1 + 1, setReg (setReg regs dst a) dst nn, env0⟩) (by simp [exec1, hnn]) ?_
-                refine Steps.cons_at sem h2 (s' := ⟨base + 1 + 1 + 1, setReg (setReg (setReg regs dst a) dst nn) n nn, env0⟩) (by simp [exec1]) ?_
+              · refine Steps.cons_at sem h0 (s' := ⟨base + 1, setReg regs dst a, env0, H⟩) (by simp [exec1, hga]) ?_
+                refine Steps.cons_at sem h1 (s' := ⟨base + 1 + 1, setReg (setReg regs dst a) dst nn, env0, H⟩) (by simp [exec1, hnn]) ?_
+                refine Steps.cons_at sem h2 (s' := ⟨base + 1 + 1 + 1, setReg (setReg (setReg regs dst a) dst nn) n nn, env0, H⟩) (by simp [exec1]) ?_
                 refine Steps.cons_at sem h3 (s' := ⟨base + 1 + 1 + 1 + 1,
-                  setReg (setReg (setReg (setReg regs dst a) dst nn) n nn) (n + 1) (sem.lit (.num 1)), env0⟩) (by simp [exec1]) ?_
+                  setReg (setReg (setReg (setReg regs dst a) dst nn) n nn) (n + 1) (sem.lit (.num 1)), env0, H⟩) (by simp [exec1]) ?_
                 refine Steps.cons_at sem h4 (s' := ⟨base + 1 + 1 + 1 + 1 + 1,
-                  setReg (setReg (setReg (setReg (setReg regs dst a) dst nn) n nn) (n + 1) (sem.lit (.num 1))) dst w, env0⟩)
+                  setReg (setReg (setReg (setReg (setReg regs dst a) dst nn) n nn) (n + 1) (sem.lit (.num 1))) dst w, env0, H⟩)
                   (by simp [exec1, setReg, hnd, hnd1, Ne.symm hnd, Ne.symm hnd1, hw]) ?_
                 refine Steps.cons_at sem h5 (s' := ⟨base + 1 + 1 + 1 + 1 + 1 + 1,
-                  setReg (setReg (setReg (setReg (setReg regs dst a) dst nn) n nn) (n + 1) (sem.lit (.num 1))) dst w, env1⟩)
+                  setReg (setReg (setReg (setReg (setReg regs dst a) dst nn) n nn) (n + 1) (sem.lit (.num 1))) dst w, env1, H⟩)
                   (by simp [exec1, hs]) ?_
                 refine Steps.one sem ?_
                 rw [step_at sem h6]
@@ -733,15 +733,15 @@ theorem codeE_ok : ∀ (e : Expr) (dst n base : Nat) (body : List Op), codeE e d
       split at h
       · rename_i a env0 ha
         obtain ⟨hga, rfl⟩ := getVar_ok sem ha
-        have s1 : Steps sem C ⟨base, regs, env0⟩ ⟨base + 1, setReg regs dst a, env0⟩ :=
+        have s1 : Steps sem C ⟨base, regs, env0, H⟩ ⟨base + 1, setReg regs dst a, env0, H⟩ :=
           Steps.one sem (by rw [step_at sem h0]; simp [exec1, hga])
         split at h
         · rename_i nn hnn
-          have s4 : Steps sem C ⟨base, regs, env0⟩ ⟨base + 1 + 1 + 1 + 1,
-              setReg (setReg (setReg (setReg regs dst a) dst nn) n nn) (n + 1) (sem.lit (.num 1)), env0⟩ := by
+          have s4 : Steps sem C ⟨base, regs, env0, H⟩ ⟨base + 1 + 1 + 1 + 1,
+              setReg (setReg (setReg (setReg regs dst a) dst nn) n nn) (n + 1) (sem.lit (.num 1)), env0, H⟩ := by
             refine s1.trans sem ?_
-            refine Steps.cons_at sem h1 (s' := ⟨base + 1 + 1, setReg (setReg regs dst a) dst nn, env0⟩) (by simp [exec1, hnn]) ?_
-            refine Steps.cons_at sem h2 (s' := ⟨base + 1 + 1 + 1, setReg (setReg (setReg regs dst a) dst nn) n nn, env0⟩) (by simp [exec1]) ?_
+            refine Steps.cons_at sem h1 (s' := ⟨base + 1 + 1, setReg (setReg regs dst a) dst nn, env0, H⟩) (by simp [exec1, hnn]) ?_
+            refine Steps.cons_at sem h2 (s' := ⟨base + 1 + 1 + 1, setReg (setReg (setReg regs dst a) dst nn) n nn, env0, H⟩) (by simp [exec1]) ?_
             exact Steps.one sem (by rw [step_at sem h3]; simp [exec1])
           split at h
           · rename_i w hw
@@ -788,7 +788,7 @@ theorem codeE_ok : ∀ (e : Expr) (dst n base : Nat) (body : List Op), codeE e d
     have h3 := emb.tail.tail.tail.head
     have h4 := emb.tail.tail.tail.tail.head
     have hnd : n ≠ dst := by omega
-    intro regs env
+    intro regs env H
     refine ⟨fun v env' h => ?_, fun er env' h => ?_⟩
     · simp only [evalE] at h
       split at h
@@ -805,11 +805,11 @@ theorem codeE_ok : ∀ (e : Expr) (dst n base : Nat) (body : List Op), codeE e d
               obtain ⟨rfl, rfl⟩ := h
               refine ⟨setReg (setReg (setReg (setReg regs dst a) dst nn) n (sem.lit (.num 1))) dst w,
                 ?_, by simp, fun r hr hrd => ?_⟩
-              · refine Steps.cons_at sem h0 (s' := ⟨base + 1, setReg regs dst a, env0⟩) (by simp [exec1, hga]) ?_
-                refine Steps.cons_at sem h1 (s' := ⟨base + 1 + 1, setReg (setReg regs dst a) dst nn, env0⟩) (by simp [exec1, hnn]) ?_
-                refine Steps.cons_at sem h2 (s' := ⟨base + 1 + 1 + 1, setReg (setReg (setReg regs dst a) dst nn) n (sem.lit (.num 1)), env0⟩) (by simp [exec1]) ?_
+              · refine Steps.cons_at sem h0 (s' := ⟨base + 1, setReg regs dst a, env0, H⟩) (by simp [exec1, hga]) ?_
+                refine Steps.cons_at sem h1 (s' := ⟨base + 1 + 1, setReg (setReg regs dst a) dst nn, env0, H⟩) (by simp [exec1, hnn]) ?_
+                refine Steps.cons_at sem h2 (s' := ⟨base + 1 + 1 + 1, setReg (setReg (setReg regs dst a) dst nn) n (sem.lit (.num 1)), env0, H⟩) (by simp [exec1]) ?_
                 refine Steps.cons_at sem h3 (s' := ⟨base + 1 + 1 + 1 + 1,
-                  setReg (setReg (setReg (setReg regs dst a) dst nn) n (sem.lit (.num 1))) dst w, env0⟩)
+                  setReg (setReg (setReg (setReg regs dst a) dst nn) n (sem.lit (.num 1))) dst w, env0, H⟩)
                   (by simp [exec1, setReg, hnd, Ne.symm hnd, hw]) ?_
                 refine Steps.one sem ?_
                 rw [step_at sem h4]
@@ -823,14 +823,14 @@ theorem codeE_ok : ∀ (e : Expr) (dst n base : Nat) (body : List Op), codeE e d
       split at h
       · rename_i a env0 ha
         obtain ⟨hga, rfl⟩ := getVar_ok sem ha
-        have s1 : Steps sem C ⟨base, regs, env0⟩ ⟨base + 1, setReg regs dst a, env0⟩ :=
+        have s1 : Steps sem C ⟨base, regs, env0, H⟩ ⟨base + 1, setReg regs dst a, env0, H⟩ :=
           Steps.one sem (by rw [step_at sem h0]; simp [exec1, hga])
         split at h
         · rename_i nn hnn
-          have s3 : Steps sem C ⟨base, regs, env0⟩ ⟨base + 1 + 1 + 1,
-              setReg (setReg (setReg regs dst a) dst nn) n (sem.lit (.num 1)), env0⟩ := by
+          have s3 : Steps sem C ⟨base, regs, env0, H⟩ ⟨base + 1 + 1 + 1,
+              setReg (setReg (setReg regs dst a) dst nn) n (sem.lit (.num 1)), env0, H⟩ := by
             refine s1.trans sem ?_
-            refine Steps.cons_at sem h1 (s' := ⟨base + 1 + 1, setReg (setReg regs dst a) dst nn, env0⟩) (by simp [exec1, hnn]) ?_
+            refine Steps.cons_at sem h1 (s' := ⟨base + 1 + 1, setReg (setReg regs dst a) dst nn, env0, H⟩) (by simp [exec1, hnn]) ?_
             exact Steps.one sem (by rw [step_at sem h2]; simp [exec1])
           split at h
           · rename_i w hw
@@ -865,340 +865,6 @@ theorem codeE_ok : ∀ (e : Expr) (dst n base : Nat) (body : List Op), codeE e d
         refine ⟨base, regs, .refl _, ?_⟩
         rw [step_at sem h0]
         simp [exec1, hga]
-
-/-- the VM reaches the end of the statement's code, the registers below `n` intact -/
-def DoneS (C : List Op) (base len : Nat) (n : Nat) (regs : Reg → V) (env env' : Env V) : Prop :=
-  ∃ regs', Steps sem C ⟨base, regs, env⟩ ⟨base + len, regs', env'⟩ ∧ ∀ r, r < n → regs' r = regs r
-
-mutual
-theorem codeS_ok : ∀ (fuel : Nat) (s : Stmt) (n base : Nat) (body : List Op), codeS s n base = some body →
-    ∀ C, Embeds C base body → ∀ (regs : Reg → V) (env : Env V),
-    (∀ u env', evalS sem fuel s env = some (.ok u env') → DoneS sem C base body.length n regs env env') ∧
-    (∀ er env', evalS sem fuel s env = some (.thrown er env') → Throws sem C base regs env er env')
-  | fuel, .expr e, n, base, body, hc, C, emb, regs, env => by
-    simp only [codeS] at hc
-    split at hc
-    · simp at hc
-    have ih := codeE_ok sem e n (n + 1) base body hc (by omega) C emb regs env
-    refine ⟨fun u env' h => ?_, fun er env' h => ?_⟩
-    · simp only [evalS] at h
-      split at h <;> simp at h
-      rename_i a env1 ha
-      subst h
-      obtain ⟨regs1, hs1, _, hk1⟩ := ih.1 a env1 ha
-      exact ⟨regs1, hs1, fun r hr => hk1 r (by omega) (by omega)⟩
-    · simp only [evalS] at h
-      split at h <;> simp at h
-      rename_i er1 env1 ha
-      obtain ⟨rfl, rfl⟩ := h
-      exact ih.2 _ _ ha
-  | fuel, .empty, n, base, body, hc, C, emb, regs, env => by
-    simp only [codeS, Option.some.injEq] at hc
-    subst hc
-    refine ⟨fun u env' h => ?_, fun er env' h => ?_⟩
-    · simp only [evalS, Option.some.injEq, Res.ok.injEq] at h
-      obtain ⟨_, rfl⟩ := h
-      exact ⟨regs, .refl _, fun _ _ => rfl⟩
-    · simp [evalS] at h
-  | fuel, .ite c t none, n, base, body, hc, C, emb, regs, env => by
-    simp only [codeS] at hc
-    split at hc
-    · simp at hc
-    split at hc
-    · simp at hc
-    rename_i hn bc hbc
-    split at hc
-    · simp at hc
-    rename_i bt hbt
-    simp only [Option.some.injEq] at hc
-    subst hc
-    have ihc := codeE_ok sem c n (n + 1) base bc hbc (by omega) C emb.left regs env
-    have hjf := emb.right.head
-    have hlen : (bc ++ Op.jumpIfFalse n (base + bc.length + 1 + bt.length) :: bt).length = bc.length + 1 + bt.length := by
-      simp; omega
-    rw [hlen]
-    refine ⟨fun u env' h => ?_, fun er env' h => ?_⟩
-    · simp only [evalS] at h
-      split at h
-      · rename_i a env1 ha
-        obtain ⟨regs1, hs1, hv1, hk1⟩ := ihc.1 a env1 ha
-        split at h
-        · rename_i htr
-          obtain ⟨regs2, hs2, hk2⟩ := (codeS_ok fuel t n (base + bc.length + 1) bt hbt C emb.right.tail regs1 env1).1 u env' h
-          refine ⟨regs2, hs1.trans sem (Steps.cons_at sem hjf (s' := ⟨base + bc.length + 1, regs1, env1⟩)
-            (by simp [exec1, hv1, htr]) ?_), fun r hr => by rw [hk2 r hr, hk1 r (by omega) (by omega)]⟩
-          simpa [Nat.add_assoc] using hs2
-        · rename_i htr
-          simp only [Option.some.injEq, Res.ok.injEq] at h
-          obtain ⟨_, rfl⟩ := h
-          refine ⟨regs1, hs1.trans sem (Steps.one sem ?_), fun r hr => hk1 r (by omega) (by omega)⟩
-          rw [step_at sem hjf]
-          simp [exec1, hv1, htr, Nat.add_assoc]
-      · simp at h
-    · simp only [evalS] at h
-      split at h
-      · rename_i a env1 ha
-        obtain ⟨regs1, hs1, hv1, hk1⟩ := ihc.1 a env1 ha
-        split at h
-        · rename_i htr
-          exact Throws.after sem (hs1.trans sem (Steps.one sem (by rw [step_at sem hjf]; simp [exec1, hv1, htr])))
-            ((codeS_ok fuel t n (base + bc.length + 1) bt hbt C emb.right.tail regs1 env1).2 _ _ h)
-        · simp at h
-      · rename_i er1 env1 ha
-        simp only [Option.some.injEq, Res.thrown.injEq] at h
-        obtain ⟨rfl, rfl⟩ := h
-        exact ihc.2 _ _ ha
-  | fuel, .ite c t (some f), n, base, body, hc, C, emb, regs, env => by
-    simp only [codeS] at hc
-    split at hc
-    · simp at hc
-    split at hc
-    · simp at hc
-    rename_i hn bc hbc
-    split at hc
-    · simp at hc
-    rename_i bt hbt
-    split at hc
-    · simp at hc
-    rename_i bf hbf
-    simp only [Option.some.injEq] at hc
-    subst hc
-    have ihc := codeE_ok sem c n (n + 1) base bc hbc (by omega) C emb.left regs env
-    have hjf := emb.right.head
-    have hj := emb.right.tail.right.head
-    have hlen : (bc ++ Op.jumpIfFalse n (base + bc.length + 1 + bt.length + 1) ::
-        (bt ++ Op.jump (base + bc.length + 1 + bt.length + 1 + bf.length) :: bf)).length
-        = bc.length + 1 + bt.length + 1 + bf.length := by
-      simp; omega
-    rw [hlen]
-    refine ⟨fun u env' h => ?_, fun er env' h => ?_⟩
-    · simp only [evalS] at h
-      split at h
-      · rename_i a env1 ha
-        obtain ⟨regs1, hs1, hv1, hk1⟩ := ihc.1 a env1 ha
-        split at h
-        · rename_i htr
-          obtain ⟨regs2, hs2, hk2⟩ := (codeS_ok fuel t n (base + bc.length + 1) bt hbt C emb.right.tail.left regs1 env1).1 u env' h
-          refine ⟨regs2, hs1.trans sem (Steps.cons_at sem hjf (s' := ⟨base + bc.length + 1, regs1, env1⟩)
-            (by simp [exec1, hv1, htr]) (hs2.trans sem (Steps.one sem ?_))),
-            fun r hr => by rw [hk2 r hr, hk1 r (by omega) (by omega)]⟩
-          rw [step_at sem hj]
-          simp [exec1, Nat.add_assoc]
-        · rename_i htr
-          obtain ⟨regs2, hs2, hk2⟩ := (codeS_ok fuel f n (base + bc.length + 1 + bt.length + 1) bf hbf C
-            emb.right.tail.right.tail regs1 env1).1 u env' h
-          refine ⟨regs2, hs1.trans sem (Steps.cons_at sem hjf (s' := ⟨base + bc.length + 1 + bt.length + 1, regs1, env1⟩)
-            (by simp [exec1, hv1, htr]) ?_), fun r hr => by rw [hk2 r hr, hk1 r (by omega) (by omega)]⟩
-          simpa [Nat.add_assoc] using hs2
-      · simp at h
-    · simp only [evalS] at h
-      split at h
-      · rename_i a env1 ha
-        obtain ⟨regs1, hs1, hv1, hk1⟩ := ihc.1 a env1 ha
-        split at h
-        · rename_i htr
-          exact Throws.after sem (hs1.trans sem (Steps.one sem (by rw [step_at sem hjf]; simp [exec1, hv1, htr])))
-            ((codeS_ok fuel t n (base + bc.length + 1) bt hbt C emb.right.tail.left regs1 env1).2 _ _ h)
-        · rename_i htr
-          exact Throws.after sem (hs1.trans sem (Steps.one sem (by rw [step_at sem hjf]; simp [exec1, hv1, htr])))
-            ((codeS_ok fuel f n (base + bc.length + 1 + bt.length + 1) bf hbf C emb.right.tail.right.tail regs1 env1).2 _ _ h)
-      · rename_i er1 env1 ha
-        simp only [Option.some.injEq, Res.thrown.injEq] at h
-        obtain ⟨rfl, rfl⟩ := h
-        exact ihc.2 _ _ ha
-  | fuel, .block ss, n, base, body, hc, C, emb, regs, env => by
-    simp only [codeS] at hc
-    split at hc
-    · simp at hc
-    rename_i bs hbs
-    simp only [Option.some.injEq] at hc
-    subst hc
-    have ih := codeL_ok fuel ss n (base + 1) bs hbs C emb.tail.left regs env
-    have hpush := emb.head
-    have hpop : C[base + 1 + bs.length]? = some .popScope := emb.tail.right.head
-    have hlen : (Op.pushScope :: (bs ++ [Op.popScope])).length = 1 + bs.length + 1 := by simp; omega
-    rw [hlen]
-    have s0 : Steps sem C ⟨base, regs, env⟩ ⟨base + 1, regs, env⟩ :=
-      Steps.one sem (by rw [step_at sem hpush]; simp [exec1])
-    refine ⟨fun u env' h => ?_, fun er env' h => ?_⟩
-    · simp only [evalS] at h
-      obtain ⟨regs1, hs1, hk1⟩ := ih.1 u env' h
-      refine ⟨regs1, s0.trans sem (hs1.trans sem (Steps.one sem ?_)), hk1⟩
-      rw [step_at sem hpop]
-      simp [exec1, Nat.add_assoc]
-    · simp only [evalS] at h
-      exact Throws.after sem s0 (ih.2 _ _ h)
-  | 0, .while_ c b, n, base, body, hc, C, emb, regs, env => by
-    refine ⟨fun u env' h => ?_, fun er env' h => ?_⟩ <;> simp [evalS] at h
-  | fuel + 1, .while_ c b, n, base, body, hc, C, emb, regs, env => by
-    have hc0 := hc
-    simp only [codeS] at hc
-    split at hc
-    · simp at hc
-    split at hc
-    · simp at hc
-    rename_i hn bc hbc
-    split at hc
-    · simp at hc
-    rename_i bb hbb
-    simp only [Option.some.injEq] at hc
-    subst hc
-    have ihc := codeE_ok sem c n (n + 1) base bc hbc (by omega) C emb.left regs env
-    have hjf := emb.right.head
-    have hj : C[base + bc.length + 1 + bb.length]? = some (.jump base) := emb.right.tail.right.head
-    have hlen : (bc ++ Op.jumpIfFalse n (base + bc.length + 1 + bb.length + 1) :: (bb ++ [Op.jump base])).length
-        = bc.length + 1 + bb.length + 1 := by
-      simp; omega
-    refine ⟨fun u env' h => ?_, fun er env' h => ?_⟩
-    · simp only [evalS] at h
-      split at h
-      · rename_i a env1 ha
-        obtain ⟨regs1, hs1, hv1, hk1⟩ := ihc.1 a env1 ha
-        split at h
-        · rename_i htr
-          split at h
-          · rename_i u1 env2 hb
-            obtain ⟨regs2, hs2, hk2⟩ := (codeS_ok fuel b n (base + bc.length + 1) bb hbb C emb.right.tail.left regs1 env1).1 u1 env2 hb
-            obtain ⟨regs3, hs3, hk3⟩ := (codeS_ok fuel (.while_ c b) n base _ hc0 C emb regs2 env2).1 u env' h
-            refine ⟨regs3, hs1.trans sem (Steps.cons_at sem hjf (s' := ⟨base + bc.length + 1, regs1, env1⟩)
-              (by simp [exec1, hv1, htr]) (hs2.trans sem (Steps.cons_at sem hj (s' := ⟨base, regs2, env2⟩)
-              (by simp [exec1]) hs3))), fun r hr => by rw [hk3 r hr, hk2 r hr, hk1 r (by omega) (by omega)]⟩
-          · rename_i hne
-            exact absurd h (by intro h'; exact hne _ _ h')
-        · rename_i htr
-          simp only [Option.some.injEq, Res.ok.injEq] at h
-          obtain ⟨_, rfl⟩ := h
-          refine ⟨regs1, hs1.trans sem (Steps.one sem ?_), fun r hr => hk1 r (by omega) (by omega)⟩
-          rw [step_at sem hjf, hlen]
-          simp [exec1, hv1, htr, Nat.add_assoc]
-      · simp at h
-    · simp only [evalS] at h
-      split at h
-      · rename_i a env1 ha
-        obtain ⟨regs1, hs1, hv1, hk1⟩ := ihc.1 a env1 ha
-        split at h
-        · rename_i htr
-          have s1 : Steps sem C ⟨base, regs, env⟩ ⟨base + bc.length + 1, regs1, env1⟩ :=
-            hs1.trans sem (Steps.one sem (by rw [step_at sem hjf]; simp [exec1, hv1, htr]))
-          split at h
-          · rename_i u1 env2 hb
-            obtain ⟨regs2, hs2, hk2⟩ := (codeS_ok fuel b n (base + bc.length + 1) bb hbb C emb.right.tail.left regs1 env1).1 u1 env2 hb
-            exact Throws.after sem (s1.trans sem (hs2.trans sem (Steps.one sem (a := ⟨base + bc.length + 1 + bb.length, regs2, env2⟩) (b := ⟨base, regs2, env2⟩)
-              (by rw [step_at sem hj]; simp [exec1]))))
-              ((codeS_ok fuel (.while_ c b) n base _ hc0 C emb regs2 env2).2 _ _ h)
-          · exact Throws.after sem s1 ((codeS_ok fuel b n (base + bc.length + 1) bb hbb C emb.right.tail.left regs1 env1).2 _ _ h)
-        · simp at h
-      · rename_i er1 env1 ha
-        simp only [Option.some.injEq, Res.thrown.injEq] at h
-        obtain ⟨rfl, rfl⟩ := h
-        exact ihc.2 _ _ ha
-  | 0, .doWhile b c, n, base, body, hc, C, emb, regs, env => by
-    refine ⟨fun u env' h => ?_, fun er env' h => ?_⟩ <;> simp [evalS] at h
-  | fuel + 1, .doWhile b c, n, base, body, hc, C, emb, regs, env => by
-    have hc0 := hc
-    simp only [codeS] at hc
-    split at hc
-    · simp at hc
-    rename_i bb hbb
-    split at hc
-    · simp at hc
-    split at hc
-    · simp at hc
-    rename_i hn bc hbc
-    simp only [Option.some.injEq] at hc
-    subst hc
-    have ihb := codeS_ok fuel b n base bb hbb C emb.left.left regs env
-    have hjt : C[base + bb.length + bc.length]? = some (.jumpIfTrue n base) := by
-      have := emb.right.head
-      simpa [Nat.add_assoc] using this
-    have hlen : (bb ++ bc ++ [Op.jumpIfTrue n base]).length = bb.length + bc.length + 1 := by simp; omega
-    refine ⟨fun u env' h => ?_, fun er env' h => ?_⟩
-    · simp only [evalS] at h
-      split at h
-      · rename_i u1 env1 hb
-        obtain ⟨regs1, hs1, hk1⟩ := ihb.1 u1 env1 hb
-        have ihc := codeE_ok sem c n (n + 1) (base + bb.length) bc hbc (by omega) C emb.left.right regs1 env1
-        split at h
-        · rename_i a env2 ha
-          obtain ⟨regs2, hs2, hv2, hk2⟩ := ihc.1 a env2 ha
-          split at h
-          · rename_i htr
-            obtain ⟨regs3, hs3, hk3⟩ := (codeS_ok fuel (.doWhile b c) n base _ hc0 C emb regs2 env2).1 u env' h
-            refine ⟨regs3, (hs1.trans sem hs2).trans sem (Steps.cons_at sem hjt (s' := ⟨base, regs2, env2⟩)
-              (by simp [exec1, hv2, htr]) hs3),
-              fun r hr => by rw [hk3 r hr, hk2 r (by omega) (by omega), hk1 r hr]⟩
-          · rename_i htr
-            simp only [Option.some.injEq, Res.ok.injEq] at h
-            obtain ⟨_, rfl⟩ := h
-            refine ⟨regs2, (hs1.trans sem hs2).trans sem (Steps.one sem ?_),
-              fun r hr => by rw [hk2 r (by omega) (by omega), hk1 r hr]⟩
-            rw [step_at sem hjt, hlen]
-            simp [exec1, hv2, htr, Nat.add_assoc]
-        · simp at h
-      · rename_i hne
-        exact absurd h (by intro h'; exact hne _ _ h')
-    · simp only [evalS] at h
-      split at h
-      · rename_i u1 env1 hb
-        obtain ⟨regs1, hs1, hk1⟩ := ihb.1 u1 env1 hb
-        have ihc := codeE_ok sem c n (n + 1) (base + bb.length) bc hbc (by omega) C emb.left.right regs1 env1
-        split at h
-        · rename_i a env2 ha
-          obtain ⟨regs2, hs2, hv2, hk2⟩ := ihc.1 a env2 ha
-          split at h
-          · rename_i htr
-            exact Throws.after sem ((hs1.trans sem hs2).trans sem (Steps.one sem (b := ⟨base, regs2, env2⟩)
-              (by rw [step_at sem hjt]; simp [exec1, hv2, htr])))
-              ((codeS_ok fuel (.doWhile b c) n base _ hc0 C emb regs2 env2).2 _ _ h)
-          · simp at h
-        · rename_i er1 env2 ha
-          simp only [Option.some.injEq, Res.thrown.injEq] at h
-          obtain ⟨rfl, rfl⟩ := h
-          exact Throws.after sem hs1 (ihc.2 _ _ ha)
-      · exact ihb.2 _ _ h
-termination_by fuel s => (fuel, sizeOf s)
-
-theorem codeL_ok : ∀ (fuel : Nat) (ss : List Stmt) (n base : Nat) (body : List Op), codeL ss n base = some body →
-    ∀ C, Embeds C base body → ∀ (regs : Reg → V) (env : Env V),
-    (∀ u env', evalL sem fuel ss env = some (.ok u env') → DoneS sem C base body.length n regs env env') ∧
-    (∀ er env', evalL sem fuel ss env = some (.thrown er env') → Throws sem C base regs env er env')
-  | fuel, [], n, base, body, hc, C, emb, regs, env => by
-    simp only [codeL, Option.some.injEq] at hc
-    subst hc
-    refine ⟨fun u env' h => ?_, fun er env' h => ?_⟩
-    · simp only [evalL, Option.some.injEq, Res.ok.injEq] at h
-      obtain ⟨_, rfl⟩ := h
-      exact ⟨regs, .refl _, fun _ _ => rfl⟩
-    · simp [evalL] at h
-  | fuel, s :: rest, n, base, body, hc, C, emb, regs, env => by
-    simp only [codeL] at hc
-    split at hc
-    · simp at hc
-    rename_i b1 hb1
-    split at hc
-    · simp at hc
-    rename_i b2 hb2
-    simp only [Option.some.injEq] at hc
-    subst hc
-    have ih1 := codeS_ok fuel s n base b1 hb1 C emb.left regs env
-    refine ⟨fun u env' h => ?_, fun er env' h => ?_⟩
-    · simp only [evalL] at h
-      split at h
-      · rename_i u1 env1 h1
-        obtain ⟨regs1, hs1, hk1⟩ := ih1.1 u1 env1 h1
-        obtain ⟨regs2, hs2, hk2⟩ := (codeL_ok fuel rest n (base + b1.length) b2 hb2 C emb.right regs1 env1).1 u env' h
-        refine ⟨regs2, hs1.trans sem ?_, fun r hr => by rw [hk2 r hr, hk1 r hr]⟩
-        simpa [Nat.add_assoc] using hs2
-      · rename_i hne
-        exact absurd h (by intro h'; exact hne _ _ h')
-    · simp only [evalL] at h
-      split at h
-      · rename_i u1 env1 h1
-        obtain ⟨regs1, hs1, hk1⟩ := ih1.1 u1 env1 h1
-        exact Throws.after sem hs1 ((codeL_ok fuel rest n (base + b1.length) b2 hb2 C emb.right regs1 env1).2 _ _ h)
-      · exact ih1.2 _ _ h
-termination_by fuel ss => (fuel, sizeOf ss)
-end
 
 end
 end TsrunVerif.Compile
